@@ -641,6 +641,24 @@ std::unique_ptr<NifFile> cv_build(const Case& c) {
 				}
 			}
 			nif->UpdateSkinPartitions(shape);
+			// '3': the triangles are assigned to three body-part partitions (round robin) through the API
+			if (has('3') && sk) {
+				NiVector<BSDismemberSkinInstance::PartitionInfo> pinf;
+				for (uint16_t id : {32, 34, 38}) {
+					BSDismemberSkinInstance::PartitionInfo pi;
+					pi.flags = PF_EDITOR_VISIBLE;
+					pi.partID = id;
+					pinf.push_back(pi);
+				}
+				std::vector<Triangle> st;
+				shape->GetTriangles(st);
+				std::vector<int> tp(st.size());
+				for (size_t i = 0; i < tp.size(); ++i)
+					tp[i] = static_cast<int>(i % 3);
+				nif->SetShapePartitions(shape, pinf, tp);
+				nif->UpdateSkinPartitions(shape);
+				skinInst = hdr.GetBlock<NiSkinInstance>(shape->SkinInstanceRef());
+			}
 			if (sd && has('d') && !sk) {
 				sd->hasVertWeights = false;
 				for (auto& b : sd->bones) {
@@ -652,6 +670,24 @@ std::unique_ptr<NifFile> cv_build(const Case& c) {
 			if (sp && sk && (has('r') || has('R')) && sp->bMappedIndices) {
 				for (auto& p : sp->partitions)
 					cv_permute_partition(p, rng, has('R') ? 2 : 1);
+				sp->triParts.clear();
+			}
+			// 'S': every LE partition stores its faces as strips (one three-point strip per triangle) instead of a list
+			if (sp && sk && has('S') && sp->bMappedIndices) {
+				for (auto& p : sp->partitions) {
+					if (p.triangles.empty())
+						continue;
+					p.strips.clear();
+					p.stripLengths.clear();
+					for (auto& t : p.triangles) {
+						p.strips.push_back({t.p1, t.p2, t.p3});
+						p.stripLengths.push_back(3);
+					}
+					p.numStrips = static_cast<uint16_t>(p.strips.size());
+					p.triangles.clear();
+					p.trueTriangles.clear();
+					p.hasFaces = true;
+				}
 				sp->triParts.clear();
 			}
 			if (sp && sk && has('p'))
